@@ -247,6 +247,13 @@ func TestVerifC18(t *testing.T) {
 	// another weekday than the schedule's zone, and the two days differ ---
 	c18CallerPrelude(out)
 
+	// --- Contains, seed-independent prelude: one constructed set of instants
+	// per daylight-saving rule family, and every zone of the host once ---
+	c18FamilyPrelude(out, callers)
+	if !out.Thorough() {
+		c18ThinZones(out, zones, use, callers)
+	}
+
 	// --- Contains ---
 	for _, zn := range use {
 		loc, err := time.LoadLocation(zn)
@@ -564,7 +571,7 @@ func c18CallerLoc(r *vfRand, own *time.Location, cs []c18Caller) (loc *time.Loca
 	return c.loc, c.name
 }
 
-func c18EmitContains(out *vfOut, zn string, loc *time.Location, days [7]dayRange, ts time.Time, callerName string, extraClass string) {
+func c18EmitContains(out *vfOut, zn string, loc *time.Location, days [7]dayRange, ts time.Time, callerName string, extraClasses ...string) {
 	w := &Weekly{location: loc, days: days}
 	obs := w.Contains(ts)
 	lt := ts.In(loc)
@@ -584,8 +591,10 @@ func c18EmitContains(out *vfOut, zn string, loc *time.Location, days [7]dayRange
 	} else {
 		c.Classes = append(c.Classes, "contains-false")
 	}
-	if extraClass != "" {
-		c.Classes = append(c.Classes, extraClass)
+	for _, ec := range extraClasses {
+		if ec != "" {
+			c.Classes = append(c.Classes, ec)
+		}
 	}
 	if !c.MonitorOK {
 		c.MonitorMsg = fmt.Sprintf("Contains=%v (instant handed over in %s) but wall clock %s in the schedule's zone, range %v-%v, is %v",
